@@ -130,7 +130,8 @@ def make_case(rng, i):
         # colliding-hash labels: distinct state / action labels with equal hash(); policy is queried at every state
         c["rep"] = dict(HASH_REPS[rng.randrange(len(HASH_REPS))])
     elif i % 7 == 2:
-        pre = make_pre_instance(rng, c["m"])
+        # reuse family: same learner object trained twice - on another MDP over the same labels, or on the same MDP
+        pre = make_pre_instance(rng, c["m"]) if rng.random() < 0.6 else c["m"]
         if pre is not None:
             c["pre"] = pre
             if c["rep"]["rep"] == "matrices" and not (gen.ghost_closed(pre) and gen.ghost_closed(c["m"])):
@@ -316,16 +317,15 @@ def run_real(case, max_steps=MAXSTEPS):
                 return q0[b.slabel.index(s)][b.alabel.index(a)] / 4 * sigma
             except ValueError:
                 raise _BadCall(f"initial_q called with ({s!r}, {a!r})") from None
-    events = []
-    st = {"new": True, "steps": 0, "snap": {}}
+    st = {"instances": []}         # listener instances msdm created, in order; the one that stopped a training
     alg = cfg["alg"]
     soft = alg == "ESARSA" and cfg["temp"] != 0
 
-    def soft_weights(table, ns):
+    def soft_weights(table, ns, snap):
         """Softmax weights of the row table[ns] *before* this update (snapshot taken after the previous update, or
         the lazy default), computed here with math.exp - independent of msdm's SoftmaxDistribution.
         Returns (hw, wh, wl): weights in units of 1/2^20 split as wh * 2^10 + wl, per abstract action."""
-        row = st["snap"].get(ns)
+        row = snap.get(ns)
         if row is None and hasattr(table, "defaultvalue"):
             row = table.defaultvalue(ns)      # not yet there after the previous update: read as the lazy default
         wh, wl = [0] * K, [0] * K
@@ -349,23 +349,33 @@ def run_real(case, max_steps=MAXSTEPS):
         return qz(row[a]), 1
 
     class Recorder(td.TDLearningEventListener):
+        """Keeps the experience on the listener INSTANCE and reports it through results(), the way the library's
+        own EpisodeRewardEventListener does: the trace that is judged is `result.event_listener_results`, i.e. the
+        experience msdm reports together with the returned Q-table."""
         def __init__(self):
-            pass
+            self.events = []
+            self.new = True
+            self.steps = 0
+            self.snap = {}
+            st["instances"].append(self)
 
         def end_of_timestep(self, lv):
             try:
                 self._step(lv)
             except _Stop:
+                st["stopped"] = self
                 raise
             except Exception as e:                          # noqa: BLE001 - the recorder failed, not msdm
                 st["recorder_error"] = f"{type(e).__name__}: {e}"
+                st["stopped"] = self
                 raise _Stop()
 
         def _step(self, lv):
             s, a, ns = lv["s"], lv["a"], lv["ns"]
-            if st["new"]:
+            events = self.events
+            if self.new:
                 events.append({"k": "start", "s": sidx(s), "a": 0, "r": 0, "ns": 0, "na": 0, "q": 0, "q2": 0, "h1": 0, "h2": 0})
-                st["new"] = False
+                self.new = False
             if alg == "DQ":
                 (q, h1), (q2, h2) = entry(lv["q1"], s, a), entry(lv["q2"], s, a)
             else:
@@ -373,25 +383,26 @@ def run_real(case, max_steps=MAXSTEPS):
             events.append({"k": "step", "s": sidx(s), "a": aidx(a), "r": qz(lv["r"]), "ns": sidx(ns),
                            "na": aidx(lv["na"]) if alg == "SARSA" else 0, "q": q, "q2": q2, "h1": h1, "h2": h2})
             if soft:
-                hw, wh, wl = soft_weights(lv["q"], ns)
+                hw, wh, wl = soft_weights(lv["q"], ns, self.snap)
                 events[-1].update(hw=hw, wh=wh, wl=wl)
-                st["snap"] = {k: dict(v) for k, v in dict.items(lv["q"])}
-            st["steps"] += 1
-            if st["steps"] >= max_steps:
+                self.snap = {k: dict(v) for k, v in dict.items(lv["q"])}
+            self.steps += 1
+            if self.steps >= max_steps:
                 raise _Stop()
 
         def end_of_episode(self, lv):
             if "s" not in lv:
                 st["recorder_error"] = "end_of_episode locals have no 's'"
+                st["stopped"] = self
                 raise _Stop()
             s = sidx(lv["s"])
-            if st["new"]:
-                events.append({"k": "start", "s": s, "a": 0, "r": 0, "ns": 0, "na": 0, "q": 0, "q2": 0, "h1": 0, "h2": 0})
-            events.append({"k": "end", "s": s, "a": 0, "r": 0, "ns": 0, "na": 0, "q": 0, "q2": 0, "h1": 0, "h2": 0})
-            st["new"] = True
+            if self.new:
+                self.events.append({"k": "start", "s": s, "a": 0, "r": 0, "ns": 0, "na": 0, "q": 0, "q2": 0, "h1": 0, "h2": 0})
+            self.events.append({"k": "end", "s": s, "a": 0, "r": 0, "ns": 0, "na": 0, "q": 0, "q2": 0, "h1": 0, "h2": 0})
+            self.new = True
 
         def results(self):
-            return None
+            return self.events
 
     Learner = getattr(td, ALG_CLASS[alg])
     if cfg["seed"] is None:
@@ -403,7 +414,7 @@ def run_real(case, max_steps=MAXSTEPS):
     rec.update(alg=alg, AN=cfg["AN"], AD=cfg["AD"], EN=cfg["EN"], ED=cfg["ED"], temp0=1 if cfg["temp"] == 0 else 0,
                q0=q0, episodes=cfg["episodes"], seedbug=0, depth=0)
     zero = [[0] * K for _ in range(N)]
-    rec.update(ev=events, truncated=0, rhas=[0] * N, rhasa=[list(r) for r in zero], rval=[list(r) for r in zero],
+    rec.update(ev=[], truncated=0, rhas=[0] * N, rhasa=[list(r) for r in zero], rval=[list(r) for r in zero],
                rank=[list(r) for r in zero], pol=[list(r) for r in zero], polq=[0] * N, extra_rows=0,
                subres=0, pert=1 if case.get("pert") else 0, scale_exp=case.get("scale_exp", 0),
                call=2 if pre is not None else 1)
@@ -420,17 +431,21 @@ def run_real(case, max_steps=MAXSTEPS):
                 raise RuntimeError("C10 recorder could not read the listener's local variables: " + st["recorder_error"])
         except Exception as e:                              # noqa: BLE001
             return {"error": f"{type(e).__name__}: {e}"[:300], "call": 1}
-        del events[:]
-        st.update(new=True, steps=0, snap={})
+        st.pop("stopped", None)        # nothing else is reset: a fresh listener per train_on call is msdm's job
     try:
         res = learner.train_on(b.mdp)
     except _Stop:
         if "recorder_error" in st:     # the observation point moved (locals renamed ...): machinery, not a verdict
             raise RuntimeError("C10 recorder could not read the listener's local variables: " + st["recorder_error"])
         rec["truncated"] = 1
+        rec["ev"] = list(st["stopped"].events)
         return rec
     except Exception as e:                                  # noqa: BLE001 - reported as a clause failure
         return {"error": f"{type(e).__name__}: {e}"[:300], "call": 2 if pre is not None else 1}
+    # ---- the experience msdm reports with this result
+    if not isinstance(res.event_listener_results, list):
+        raise RuntimeError("C10: result.event_listener_results is not what the listener's results() returned")
+    rec["ev"] = list(res.event_listener_results)
     # ---- returned table, read BEFORE the policy is queried (querying materialises rows of the lazy table)
     for s_lab, row in list(dict.items(res.q_values)):
         s = sidx(s_lab)
@@ -736,9 +751,11 @@ def run(ctx):
         "10^scale_exp (1e-7, 1e-3, 1e6); the TD rule is positively homogeneous and softmax(Q/tau) is scale invariant, so "
         "the model is unchanged and every observed value is divided by the factor before quantisation (float error 1e-16 "
         "relative, far below the 1/2 unit of slack)",
-        "reuse family (call = 2): one learner object is trained on MDP A and then on MDP B (same labels, other absorbing "
-        "set / action sets); the second call is judged against B exactly like a first call - the statement has no "
-        "freshness precondition on the learner",
+        "reuse family (call = 2): one learner object is trained on MDP A (same labels, other absorbing set / action "
+        "sets; or the very same MDP) and then on MDP B; the second call is judged against B exactly like a first call - "
+        "the statement has no freshness precondition on the learner",
+        "the experience that is judged is result.event_listener_results (what msdm reports with the returned Q-table), "
+        "produced by a listener that keeps its state on the instance like the library's EpisodeRewardEventListener",
         "boundedness interval includes 0 (the fixed value of absorbing states); undiscounted: after n updates "
         "[min q0 + n min(r,0), max q0 + n max(r,0)]",
     ]
